@@ -63,6 +63,9 @@ CHECKS = {
  'C16': ('exploration', 'runtime monitoring of the real zip sender with a recording TcpClient (synchronous and retaining modes): offline exactly-once / order / count / decodability / compression-threshold / flush-trigger checkers over the emitted packs, hand-over snapshots for aliasing, settings read through a verif hook, Go race detector on the queue scenarios',
          'Fresh senders (real GetInstance after the reset hook) receive uniquely numbered log records of 0 B..200 KiB with virtual timestamps through the queue (1..8 producers) or directly (Append, SendDirect), with default or ApplyConfig settings; every emitted pack is parsed by an independent parser (gunzip when flagged) and the record stream must be exactly what was handed over, counts must match, compression must follow the threshold, batches must close at the buffer/wait triggers and at stop, defaults must be in force, and retained packs must equal their hand-over snapshots.',
          'Uses the verif hooks VerifResetInstance/VerifSettings; only interleavings the scheduler produced are covered; flush-trigger judgements in queue mode are skipped (never failed) when machine load stretched the drain; ApplyConfig concurrent with the loop is not driven.', 'DESIGN.md §4 C16'),
+ 'C04': ('fault_enumeration', 'runtime fault enumeration over a reference-encoded corpus: every strict prefix of every encoding is decoded by the real decoders (must end in a recoverable panic), every length/count/tag/version field is overwritten with hostile values and decoded in a sandboxed decode server with an exact allocation meter (TotalAlloc), CPU-time termination rule and an address-space limit; plain and checkptr builds',
+         'A corpus of valid encodings of values, steps, records and every pack type (built by the independent reference encoder, admitted only if golib decodes it completely) is subjected to two enumerated fault spaces: all truncation points, and all hostile values at every field-map entry (plus every byte position of small encodings). A prefix that decodes normally, an allocation above 64 x len(input) + 1 MiB, a process-fatal event or a decode burning more than 20 s CPU is a violation attributed to decoder and field.',
+         'The fault space is single-field corruption and truncation of the generated corpus (sampled for encodings above 4 KiB); tcp-mode reads are not driven; allocations below the 1 MiB constant pass; older-version end marks inside body blobs give no exception because the outer length prefix then disagrees.', 'DESIGN.md §4 C04'),
 }
 PENDING = 'check not built yet in this round (planned, see DESIGN.md §4); not claimed until its monitor exists and is silent on the unchanged tree'
 NA = {}
